@@ -32,6 +32,12 @@ func init() {
 				o.slowPoints = []string{"subprocess.monitor.before_subscribe", "subprocess.run.before_subscribe"}
 				o.slowFor = 20 * time.Millisecond
 			}
+			if idx%2 == 1 {
+				// a task answered with an error (no handler / skip / retry; not exit: a token that ends inside a sub-process
+				// empties its scope, the same token inlined does not) — inside a sub-process or not — is handled
+				// the same way wrapped and inlined
+				o.errAnswers, o.errNoExit = true, true
+			}
 			seed := rng.U64()
 			out.Begin("c12")
 			// the wrapped run is left idle (not cancelled) while the inlined one runs: a cancelled instance may
